@@ -389,6 +389,26 @@ func c02Session(r *mon.Run, jr *rand.Rand, s, s2 *session) {
 			must("key", fmt.Sprintf("key %d -> %s", i, other), all, pk, s.ctx, s.nonce, s.issig)
 		}
 	}
+	// key list longer or shorter than the proof list: surplus keys (a verifier expecting more credentials than were sent), keys
+	// missing at the end, and labels of another length
+	for _, extra := range []string{"same as last", "toy256b", "toy512b"} {
+		add := s.pks[n-1]
+		if extra != "same as last" {
+			add = world.Fixture(extra).PK
+		}
+		for k := 1; k <= 2; k++ {
+			pk := append([]*gabikeys.PublicKey{}, s.pks...)
+			for j := 0; j < k; j++ {
+				pk = append(pk, add)
+			}
+			must("key", fmt.Sprintf("%d surplus key(s) appended (%s)", k, extra), all, pk, s.ctx, s.nonce, s.issig)
+		}
+		pk := append([]*gabikeys.PublicKey{add}, s.pks...)
+		must("key", fmt.Sprintf("surplus key prepended (%s)", extra), all, pk, s.ctx, s.nonce, s.issig)
+	}
+	if n > 1 {
+		must("key", "last key missing", all, s.pks[:n-1], s.ctx, s.nonce, s.issig)
+	}
 	// splice with a second session over the same credentials
 	for i := 0; i < n; i++ {
 		pl := append([]int{}, all...)
